@@ -194,6 +194,37 @@ class C17(F.Check):
                     ks.append(k)
                     self.ident.append(("%s_%s" % (fam, tag), k.name, ct, dict(key, form=fam), note))
 
+        # ---- the C++20 calendar durations (std::chrono::days / weeks / months / years), lowered at -std=c++20: a mapping keyed on these
+        # exact types must still be "seconds x Period" (days 86400, weeks 604800, months 2629746, years 31556952)
+        for dn, per in (("days", 86400), ("weeks", 604800), ("months", 2629746), ("years", 31556952)):
+            D = "std::chrono::%s" % dn
+            ct = "int64_t"         # libstdc++: duration<int64_t, ratio<N>>; checked by the closed fact below
+            uq = unit_cxx(Fraction(per))
+            key = {"rep": ct, "period": "std::ratio<%d>" % per, "duration": D, "std": "c++20"}
+            a1 = [(ct, "x")]
+            for fam, body, note in (
+                    ("rt", "%s d{x}; auto q = as_quantity(d); %s d2 = q; return d2.count();" % (D, D),
+                     "C++20 calendar duration -> as_quantity -> back: count unchanged"),
+                    ("rtc", "%s d{x}; auto d2 = as_chrono_duration(as_quantity(d)); return d2.count();" % D,
+                     "C++20 calendar duration -> as_quantity -> as_chrono_duration: count unchanged"),
+                    ("in", "%s d{x}; return as_quantity(d).in(%s{});" % (D, uq), "as_quantity(d).in(seconds x Period) == d.count()"),
+                    ("in_s", "%s d{x}; return as_quantity(d).coerce_in(seconds) - x * %dLL;" % (D, per),
+                     "as_quantity(d) expressed in seconds is count x Period (difference to x*Period is 0; inputs where x*Period overflows excluded by UB parity)")):
+                k = F.Kernel("c17_%s_cxx20_%s" % (fam, dn), ct, a1, body, key=dict(key, form=fam), family=fam, std="c++20")
+                ks.append(k)
+                if fam != "in_s":
+                    self.ident.append(("%s_cxx20_%s" % (fam, dn), k.name, ct, dict(key, form=fam), note))
+                else:
+                    self.cal_in_s = getattr(self, "cal_in_s", []) + [(k.name, per, dict(key, form=fam))]
+            k = F.Kernel("c17_cl_cxx20_type_%s" % dn, "bool", [],
+                         "return std::is_same<decltype(as_chrono_duration(as_quantity(%s{}))), %s>::value && std::is_same<%s::rep, int64_t>::value "
+                         "&& std::is_same<typename decltype(as_quantity(%s{}))::Unit, %s>::value;" % (D, D, D, D, uq) if False else
+                         "return std::is_same<decltype(as_chrono_duration(as_quantity(%s{}))), %s>::value && std::is_same<%s::rep, int64_t>::value "
+                         "&& are_units_quantity_equivalent(typename decltype(as_quantity(%s{}))::Unit{}, %s{});" % (D, D, D, D, uq),
+                         key=key, family="closed", std="c++20")
+            ks.append(k)
+            self.closed.append((k.name, True, "as_chrono_duration(as_quantity(d)) is the same duration type; the quantity's unit is seconds x Period", key))
+
         # ---- mixed operations
         for (pn, qn) in self.mixed_pairs:
             pt, pv = PERIODS[pn]
@@ -316,6 +347,17 @@ class C17(F.Check):
                 return T.TRUE, T.and_(T.eq(e.ret, x), T.not_(e.ub))
             obs.append(F.Ob("id:" + tag, [("x", T.BV(w))], fn, routes=F.FP_ROUTES if F.ct_is_float(ct) else F.CMP_ROUTES, key=key,
                             kernels=[name], note=note))
+        for name, per, key in getattr(self, "cal_in_s", []):
+            if K[name].kernel.dropped:
+                self.inconclusive.append("calendar-duration kernel %s does not compile: %s" % (name, K[name].kernel.dropped[:160]))
+                continue
+
+            def fnc(K, x, name=name, per=per):
+                e = K[name](x)
+                fits = T.in_range(T.imul(T.sval(x), T.const_int(per)), -(1 << 63), (1 << 63) - 1)
+                return fits, T.and_(T.not_(e.ub), T.eq(e.ret, T.const_bv(0, 64)))
+            obs.append(F.Ob("calendar_in_seconds:" + name, [("x", T.BV(64))], fnc, routes=F.INT_ROUTES, key=key, kernels=[name],
+                            note="C++20 calendar duration as a quantity, expressed in seconds, is count x Period exactly (whenever that fits int64)"))
         nmis = 0
         for tag, au, rf, (r1, r2), rc, on, f1, f2, key, expect in self.mixed:
             da, dr = K[au].kernel.dropped, K[rf].kernel.dropped
